@@ -141,6 +141,8 @@ type Root struct {
 	Step    int64    `json:"clock_step_ns,omitempty"` // clock step override; -1 = zero step
 	// DrawMenu overrides the menu of random draws
 	DrawMenu []float64 `json:"draw_menu,omitempty"`
+	// Refreshed is the contact carried by "refresh:<text>" resume events
+	Refreshed J `json:"refreshed,omitempty"`
 	// FreshAssets rebuilds the SessionAssets (cold flow cache) for every execution instead of
 	// sharing one per root
 	FreshAssets bool `json:"fresh_assets,omitempty"`
@@ -174,6 +176,8 @@ type Exec struct {
 	HTTP      *HTTPAnswers
 	Chooser   *mc.Chooser // choices of the last call
 	Calls     int
+	// LastResume is the resume object of the last Apply (nil after Start)
+	LastResume flows.Resume
 }
 
 func (x *Exec) arm(choices []int) {
@@ -340,7 +344,24 @@ func (x *Exec) Apply(st Step) error {
 		}
 	}
 	x.arm(st.Choices)
-	res := MakeResume(st.Ev)
+	var res flows.Resume
+	if strings.HasPrefix(st.Ev, "refresh:") {
+		// a msg resume that carries a refreshed contact (Root.Refreshed, default: RefreshedContact())
+		cj := x.Root.Refreshed
+		if cj == nil {
+			cj = RefreshedContact()
+		}
+		b, _ := json.Marshal(cj)
+		contact, err := flows.ReadContact(x.SA, b, assets.IgnoreMissing)
+		if err != nil {
+			return fmt.Errorf("refreshed contact: %w", err)
+		}
+		msg := flows.NewMsgIn(flows.MsgUUID(uuids.NewV4()), urns.URN("tel:+12065551212"), assets.NewChannelReference(assets.ChannelUUID(ChanTel), "Tel"), strings.TrimPrefix(st.Ev, "refresh:"), nil)
+		res = resumes.NewMsg(nil, contact, msg)
+	} else {
+		res = MakeResume(st.Ev)
+	}
+	x.LastResume = res
 	x.Calls++
 	x.Sprint, x.Err = x.Session.Resume(res)
 	return nil
